@@ -6,6 +6,8 @@ following summary, whose ingredients are verified on the parser's own source by 
 the instance; `parameterItems()` yields (UPPER-CASE LETTER, float|None) pairs in source order;
 `stringify(...)` / `buildCommand(...)` return strings derived from the parsed text and flags only.
 """
+import ast
+
 from .values import (NONE, Num, Str, SStr, Cat, Obj, TupleV, Star, Choice, Opaque, IterV, ParamIter, vkey, deps_of)
 from .absint import Raised, BOOL
 
@@ -57,6 +59,18 @@ def install(I):
     S[(PARSER, 'parseLines')] = parseLines
 
     def stringify(I, st, recv, args, kw, frame, node):
+        # normalise the call to keyword form with the real signature (positional arguments, defaults)
+        c0, fn0 = I.m.lookup(PARSER, 'stringify')
+        if fn0 is not None:
+            names = [a.arg for a in fn0.args.args][1:]
+            kw = dict(kw)
+            for nme, val in zip(names, args):
+                kw.setdefault(nme, val)
+            defaults = fn0.args.defaults
+            for nme, dn in zip(names[len(names) - len(defaults):], defaults):
+                if nme not in kw and isinstance(dn, ast.Constant):
+                    from .exprs import const_value
+                    kw[nme] = const_value(dn.value)
         flags = ','.join('%s=%s' % (k, _k(v)) for k, v in sorted(kw.items()))
         src = st.heap.get((recv.oid, '@parsed'), Opaque('unparsed(%s)' % recv.oid))
         st.ev('stringify', recv.oid, src, tuple(sorted((k, vkey(v)) for k, v in kw.items())), frame.qual())
